@@ -40,11 +40,12 @@ const (
 )
 
 type tstate struct {
-	kind    int
-	owner   int // builder index; -2: orphan (its builder was dropped)
-	rec     *thunk.Rec
-	stub    *model.Stub
-	results []interface{}
+	skipRecv bool // stub configured through a path that ignores the receiver when matching
+	kind     int
+	owner    int // builder index; -2: orphan (its builder was dropped)
+	rec      *thunk.Rec
+	stub     *model.Stub
+	results  []interface{}
 }
 
 // Exec interprets history operations for one task against goom and the model.
@@ -76,6 +77,19 @@ func (x *Exec) state(t int) *tstate {
 // phEver is process-global: the body of an origin placeholder stays rewritten for the life of
 // the process (the property allows exactly that).
 var phEver = map[int]bool{}
+
+// how returns the lookup path this history uses for target ti (fixed per history).
+func (x *Exec) how(ti int) int {
+	for _, op := range x.Ops {
+		if op.T == ti {
+			switch op.K {
+			case "apply", "ret", "when", "cancel":
+				return op.N
+			}
+		}
+	}
+	return 0
+}
 
 // NewExec creates an interpreter for ops.
 func NewExec(env *world.Env, p *world.Plan, ops []world.Op) *Exec {
@@ -178,11 +192,18 @@ func isNoCondition(pv interface{}) bool {
 func (x *Exec) callTarget(ti, form int, argSeed uint64, hit bool) {
 	t := Targets[ti]
 	s := x.state(ti)
+	if s.kind == kOrig {
+		for _, m := range t.Mates {
+			if ms := x.st[m]; ms != nil && ms.kind != kOrig {
+				return // an instantiation of the same GC shape is mocked: behaviour unspecified
+			}
+		}
+	}
 	args := val.GenArgs(rng.Derive(argSeed, 11), t.Typ)
 	if hit && s.kind == kStub && len(s.stub.Clauses) > 0 {
 		c := s.stub.Clauses[int(argSeed%uint64(len(s.stub.Clauses)))]
 		args = nil
-		if t.IsMethod {
+		if s.skipRecv {
 			args = append(args, val.Gen(rng.Derive(argSeed, 12), t.Typ.In(0)))
 		}
 		for _, m := range c.Alts[0] {
@@ -275,7 +296,7 @@ func (x *Exec) callTarget(ti, form int, argSeed uint64, hit bool) {
 		}
 	case kStub:
 		margs := args
-		if t.IsMethod {
+		if s.skipRecv {
 			margs = args[1:]
 		}
 		if t.Typ.IsVariadic() {
@@ -476,6 +497,7 @@ func (x *Exec) step(op world.Op) {
 		res := val.GenResults(rng.Derive(op.V, 22), t.Typ)
 		t.Lookup(x.builder(op.B), op.N).Return(res...)
 		s.owner, s.kind, s.rec = op.B, kStub, nil
+		s.skipRecv = t.SkipRecv != nil && t.SkipRecv(op.N)
 		s.stub = &model.Stub{HasResults: t.Typ.NumOut() > 0, Eq: func(p, a interface{}) bool { return val.Same(p, a, false) }}
 		s.stub.Default = [][]interface{}{res}
 		x.env.T("ret %s %s", shortName(t.Name), val.ShowList(res))
@@ -484,13 +506,15 @@ func (x *Exec) step(op world.Op) {
 		s := x.state(op.T)
 		res := val.GenResults(rng.Derive(op.V, 23), t.Typ)
 		cargs := val.GenArgs(rng.Derive(op.W, 24), t.Typ)
-		if t.IsMethod {
+		skip := t.SkipRecv != nil && t.SkipRecv(op.N)
+		if skip {
 			cargs = cargs[1:]
 		}
 		t.Lookup(x.builder(op.B), op.N).When(cargs...).Return(res...)
 		if s.kind != kStub || s.owner != op.B {
 			s.stub = &model.Stub{HasResults: t.Typ.NumOut() > 0, Eq: func(p, a interface{}) bool { return val.Same(p, a, false) }}
 		}
+		s.skipRecv = skip
 		s.owner, s.kind, s.rec = op.B, kStub, nil
 		alt := make([]model.ArgMatcher, len(cargs))
 		for i, a := range cargs {
@@ -566,6 +590,10 @@ func (x *Exec) step(op world.Op) {
 	switch op.K {
 	case "apply", "ret", "when", "cancel", "bad":
 		x.callTarget(op.T, int(op.W%3), op.W^0x5bd1e995, op.K == "when")
+		// no other method of the same type may be affected
+		for i, sb := range Targets[op.T].Siblings {
+			x.callTarget(sb, thunk.FormDirect, op.W+uint64(i)*7919, false)
+		}
 	}
 }
 
@@ -604,14 +632,14 @@ func (x *Exec) bad(op world.Op) {
 			}
 		}
 		cb := other.MkCb(&thunk.Rec{})
-		f = func() { t.Lookup(b, 0).Apply(cb) }
+		f = func() { t.Lookup(b, x.how(op.T)).Apply(cb) }
 	case 2:
 		desc = "Apply(callback with a different slot size)"
 		cb := wrongSizeCallback(t.Typ, r)
 		if cb == nil {
 			return
 		}
-		f = func() { t.Lookup(b, 0).Apply(cb) }
+		f = func() { t.Lookup(b, x.how(op.T)).Apply(cb) }
 	case 3:
 		desc = "Return(too few values)"
 		res := val.GenResults(r, t.Typ)
@@ -623,25 +651,25 @@ func (x *Exec) bad(op world.Op) {
 			// Return() with no values is "nil returns" = allowed shape for a later Returns; use When path instead
 			return
 		}
-		f = func() { t.Lookup(b, 0).Return(res...) }
+		f = func() { t.Lookup(b, x.how(op.T)).Return(res...) }
 	case 4:
 		desc = "Return(too many values)"
 		res := append(val.GenResults(r, t.Typ), 1)
-		f = func() { t.Lookup(b, 0).Return(res...) }
+		f = func() { t.Lookup(b, x.how(op.T)).Return(res...) }
 	case 5:
 		desc = "When(too few arguments)"
 		if t.Typ.IsVariadic() {
 			return
 		}
 		args := val.GenArgs(r, t.Typ)
-		if t.IsMethod {
+		if t.SkipRecv != nil && t.SkipRecv(x.how(op.T)) {
 			args = args[1:]
 		}
 		if len(args) < 2 {
 			return
 		}
 		args = args[:len(args)-1]
-		f = func() { t.Lookup(b, 0).When(args...) }
+		f = func() { t.Lookup(b, x.how(op.T)).When(args...) }
 	case 6:
 		desc = "Return(value of a different size)"
 		res := val.GenResults(r, t.Typ)
@@ -661,7 +689,7 @@ func (x *Exec) bad(op world.Op) {
 		} else {
 			res[pos] = int8(1)
 		}
-		f = func() { t.Lookup(b, 0).Return(res...) }
+		f = func() { t.Lookup(b, x.how(op.T)).Return(res...) }
 	case 7:
 		desc = "ExportFunc(unknown symbol).Apply"
 		cb := t.MkCb(&thunk.Rec{})
